@@ -75,6 +75,7 @@ def corpus():
     from checks import c11_handmade
     items.extend(c11_handmade.listings())
     items.extend(rerun_twins(items))
+    items.extend(free_format(items))
     _STATE['corpus'] = items
     _STATE['by_name'] = {it['name']: i for i, it in enumerate(items)}
     return items
@@ -163,6 +164,29 @@ def rerun_twins(items):
                 'twin_of': item['name'], 'rerun': True}
         out.append(twin)
         item['twin'] = twin['name']
+    return out
+
+
+def free_format(items):
+    '''Tripoli-4 data files are free-format and the listing echoes them as
+    they are: "BATCH 200" may as well be "BATCH" / "200" on two lines (the
+    scanner then does not know the number of batches asked for).'''
+    import re
+    out = []
+    pat = re.compile(rb'^([ \t]*)BATCH[ \t]+(\d+)[ \t]*\n', re.M)
+    for item in items:
+        if item.get('path') is None or len(out) >= 3:
+            continue
+        if not item['base'].startswith(('ttsSimplePacket20.d.res',
+                                        'tungstene.d.res', 'vov.d.res')):
+            continue
+        data, count = pat.subn(rb'\1BATCH\n\1\2\n', item['data'], count=1)
+        if count != 1:
+            continue
+        out.append({'name': 'freeformat/' + item['base'], 'path': None,
+                    'base': 'ff-' + item['base'], 'data': data,
+                    'twin_of': item['name'], 'rerun': True,
+                    'no_twin_ops': True})
     return out
 
 
@@ -532,7 +556,8 @@ def gen_history(rng, fam):
             cut = rng.randrange(0, size + 1)
         ops.append([item['name'], min(cut, size)])
         other = item.get('twin') or item.get('twin_of')
-        if other and rng.random() < 0.7 and \
+        if other and not item.get('no_twin_ops') and \
+                rng.random() < 0.7 and \
                 not items[_STATE['by_name'][other]].get('dropped'):
             # the job was re-run in place and killed at the same point
             ops.append([other, min(cut, size)])
